@@ -1,11 +1,14 @@
 package main
 
 // SMT back end: per worker, a portfolio of long-lived solver processes fed SMT-LIB2 text.
-//   z3-intblast: z3 5.1.0 with the integer-blasting bit-vector solver (smt.bv.solver=2) — decides the linear
-//           64-bit arithmetic of deadlines/indices in milliseconds where bit-blasting needs tens of seconds;
+//   cvc5-int:    cvc5 1.0 --incremental --solve-bv-as-int=sum — decides the linear 64-bit arithmetic of
+//                deadlines/indices quickly where bit-blasting needs tens of seconds;
 //   z3-bitblast: z3 5.1.0 default — decides the bit-twiddling queries (sketch, SWAR);
-//   then a one-shot cvc5 --solve-bv-as-int=sum, then both z3 configurations again with the long timeout.
-// No set-logic, no push/pop: path constraints are asserted, probes use check-sat-assuming.
+//   then one-shot z3 4.8.12, then both incremental processes again with the long timeout.
+// z3 5.1.0's integer-blasting mode (smt.bv.solver=2) was tried and REMOVED: in incremental use it answered
+// "unsat" on satisfiable queries (found through differing path counts, confirmed by four other solver
+// configurations); see DESIGN.md.
+// No set-logic for z3, no push/pop: path constraints are asserted, probes use check-sat-assuming.
 // Any "(error" line, "unknown" or timeout is inconclusive, never success.
 
 import (
@@ -25,7 +28,9 @@ var traceSolver = os.Getenv("VERIF_TRACE_SOLVER")
 
 type proc struct {
 	bin       string
-	opts      []string // set-option lines sent after every reset
+	args      []string
+	tmoOpt    string   // name of the per-query timeout option
+	opts      []string // lines sent after every reset
 	cmd       *exec.Cmd
 	in        io.WriteCloser
 	out       *bufio.Reader
@@ -36,7 +41,11 @@ type proc struct {
 }
 
 func (p *proc) start() error {
-	p.cmd = exec.Command(p.bin, "-in")
+	args := p.args
+	if args == nil {
+		args = []string{"-in"}
+	}
+	p.cmd = exec.Command(p.bin, args...)
 	in, err := p.cmd.StdinPipe()
 	if err != nil {
 		return err
@@ -81,17 +90,20 @@ type Solver struct {
 	Time         time.Duration
 	ByProc       map[string]int
 	runs         int
+	noOneShot    bool
+	LastBackend  string
 }
 
-// NewSolver starts the portfolio. prefer = "int" or "bits" selects which z3 configuration is asked first.
+// NewSolver starts the portfolio. prefer = "int" (cvc5 integer encoding first) or "bits" (z3 bit-blasting first).
 func NewSolver(bin string, prefer string, timeoutMs int) (*Solver, error) {
-	intp := &proc{bin: bin, name: "z3-intblast", opts: []string{"(set-option :smt.bv.solver 2)"}}
 	bitp := &proc{bin: bin, name: "z3-bitblast"}
-	s := &Solver{timeoutMs: timeoutMs, shortMs: 1500, emitted: map[int]bool{}, ByProc: map[string]int{}}
+	cvcp := &proc{bin: "cvc5", name: "cvc5-int", tmoOpt: ":tlimit-per", opts: []string{"(set-logic ALL)"},
+		args: []string{"--incremental", "--produce-models", "--solve-bv-as-int=sum", "--lang=smt2"}}
+	s := &Solver{timeoutMs: timeoutMs, shortMs: 1000, emitted: map[int]bool{}, ByProc: map[string]int{}}
 	if prefer == "bits" {
-		s.procs = []*proc{bitp, intp}
+		s.procs = []*proc{bitp, cvcp}
 	} else {
-		s.procs = []*proc{intp, bitp}
+		s.procs = []*proc{cvcp, bitp}
 	}
 	if err := s.procs[0].start(); err != nil {
 		return nil, err
@@ -198,14 +210,23 @@ func (s *Solver) checkOn(p *proc, ms int, assump []*Term) string {
 		sb.WriteString("\n")
 	}
 	p.sent = len(s.script)
-	fmt.Fprintf(&sb, "(set-option :timeout %d)\n(check-sat-assuming (", ms)
-	for i, a := range assump {
-		if i > 0 {
-			sb.WriteString(" ")
-		}
-		sb.WriteString(a.ref())
+	tmo := p.tmoOpt
+	if tmo == "" {
+		tmo = ":timeout"
 	}
-	sb.WriteString("))\n")
+	fmt.Fprintf(&sb, "(set-option %s %d)\n", tmo, ms)
+	if len(assump) == 0 {
+		sb.WriteString("(check-sat)\n")
+	} else {
+		sb.WriteString("(check-sat-assuming (")
+		for i, a := range assump {
+			if i > 0 {
+				sb.WriteString(" ")
+			}
+			sb.WriteString(a.ref())
+		}
+		sb.WriteString("))\n")
+	}
 	if traceSolver != "" {
 		f, _ := os.OpenFile(traceSolver+"."+p.name, os.O_APPEND|os.O_CREATE|os.O_WRONLY, 0o644)
 		f.WriteString(sb.String())
@@ -214,6 +235,7 @@ func (s *Solver) checkOn(p *proc, ms int, assump []*Term) string {
 	t0 := time.Now()
 	s.Queries++
 	s.ByProc[p.name]++
+	s.LastBackend = fmt.Sprintf("%s/%dms", p.name, ms)
 	defer func() { s.Time += time.Since(t0) }()
 	if _, err := io.WriteString(p.in, sb.String()); err != nil {
 		s.Errors++
@@ -255,15 +277,20 @@ func (s *Solver) Check(assump ...*Term) string {
 	}
 	s.lastAssump = assump
 	s.last = nil
-	for _, p := range s.procs {
-		if r := s.checkOn(p, s.shortMs, assump); r != "unknown" {
-			if r == "sat" {
-				s.last = p
-			}
-			return r
+	// 1. preferred back end, short timeout; 2. the other one; 3. one-shot z3 4.8.12; 4. both, long timeout
+	if r := s.checkOn(s.procs[0], s.shortMs, assump); r != "unknown" {
+		if r == "sat" {
+			s.last = s.procs[0]
 		}
+		return r
 	}
-	if r := s.cvc5Int(assump); r == "sat" || r == "unsat" {
+	if r := s.checkOn(s.procs[1], 2000, assump); r != "unknown" {
+		if r == "sat" {
+			s.last = s.procs[1]
+		}
+		return r
+	}
+	if r := s.oneShot("z3", []string{"-in", "-T:15"}, "z3-4.8.12-oneshot", assump); r == "sat" || r == "unsat" {
 		s.FallbackHits++
 		return r
 	}
@@ -279,6 +306,37 @@ func (s *Solver) Check(assump ...*Term) string {
 	return "unknown"
 }
 
+func (s *Solver) oneShot(bin string, args []string, name string, assump []*Term) string {
+	var sb strings.Builder
+	for _, l := range s.script {
+		sb.WriteString(l)
+		sb.WriteString("\n")
+	}
+	for _, a := range assump {
+		fmt.Fprintf(&sb, "(assert %s)\n", a.ref())
+	}
+	sb.WriteString("(check-sat)\n")
+	t0 := time.Now()
+	cmd := exec.Command(bin, args...)
+	cmd.Stdin = strings.NewReader(sb.String())
+	out, _ := cmd.CombinedOutput()
+	s.Time += time.Since(t0)
+	s.Queries++
+	s.ByProc[name]++
+	s.LastBackend = name
+	txt := string(out)
+	if strings.Contains(txt, "(error") {
+		return "unknown"
+	}
+	for _, l := range strings.Split(txt, "\n") {
+		l = strings.TrimSpace(l)
+		if l == "sat" || l == "unsat" {
+			return l
+		}
+	}
+	return "unknown"
+}
+
 func (s *Solver) cvc5Int(assump []*Term) string {
 	var sb strings.Builder
 	sb.WriteString("(set-logic ALL)\n")
@@ -291,12 +349,13 @@ func (s *Solver) cvc5Int(assump []*Term) string {
 	}
 	sb.WriteString("(check-sat)\n")
 	t0 := time.Now()
-	cmd := exec.Command("cvc5", "--solve-bv-as-int=sum", "--tlimit=20000", "--lang=smt2", "-")
+	cmd := exec.Command("cvc5", "--solve-bv-as-int=sum", "--tlimit=10000", "--lang=smt2", "-")
 	cmd.Stdin = strings.NewReader(sb.String())
 	out, _ := cmd.CombinedOutput()
 	s.Time += time.Since(t0)
 	s.Queries++
 	s.ByProc["cvc5-int"]++
+	s.LastBackend = "cvc5-int-oneshot"
 	txt := string(out)
 	if strings.Contains(txt, "(error") {
 		return "unknown"
